@@ -785,6 +785,7 @@ theorem accept_congr {s : RStore} {cand : RoomNode} (g : candGuard s cand = true
   have h : ∀ room old, prepareWithHistory Defects.asImplemented room old cand = prepareWithHistory Defects.none room old cand :=
     fun room old => prepareWithHistory_switch (d := Defects.asImplemented) (d' := Defects.none) rfl rfl room old cand
   simp only [h]
+  rfl
 
 /-! #### the same for /repo before the fixes (kept as a regression statement) -/
 
@@ -854,21 +855,37 @@ theorem prepareWithHistory_congr {room : RoomT} {old cand : RoomNode}
             (fun a ha hno => g3 a (am.newUntouched a ha hno) hno)
           rw [this]
 
+/-- /repo before 77018f3 but with the read order of today (the read order only matters for entries
+    of equal date and for the read-back of the stored definition, see `C07_breaks_newestFirstRead`) -/
+def Defects.beforeFixesOldestFirst : Defects := { Defects.beforeFixes with newestFirstRead := false }
+
 theorem accept_congr_beforeFixes {s : RStore} {cand : RoomNode} (g : candGuardBeforeFixes s cand = true) :
-    accept Defects.beforeFixes s cand = accept Defects.none s cand := by
+    accept Defects.beforeFixesOldestFirst s cand = accept Defects.none s cand := by
   unfold candGuardBeforeFixes at g
   simp only [Bool.and_eq_true] at g
   obtain ⟨gp, gm⟩ := g
+  have hsw : ∀ room old, prepareWithHistory Defects.beforeFixesOldestFirst room old cand =
+      prepareWithHistory Defects.beforeFixes room old cand :=
+    fun room old => prepareWithHistory_switch (d := Defects.beforeFixesOldestFirst) (d' := Defects.beforeFixes) rfl rfl room old cand
   unfold accept
-  simp only [gp, Bool.not_true, Bool.and_false, Bool.false_eq_true, if_false]
+  simp only [gp, Bool.not_true, Bool.and_false, Bool.false_eq_true, if_false, hsw]
+  show (if (!cand.sigsOk) = true then _ else if (!cand.consistent) = true then _ else
+      match s.rooms.find? (·.id = cand.node.id) with
+      | some room => match readBack false s cand.node.id with
+        | none => _
+        | some old => _
+      | none => _) = _
   cases hroom : s.rooms.find? (·.id = cand.node.id) with
   | none => rfl
   | some room =>
     simp only
     cases hold : readBack false s cand.node.id with
-    | none => rfl
+    | none =>
+      have : readBack Defects.none.newestFirstRead s cand.node.id = none := hold
+      simp only [this]
     | some old =>
-      simp only
+      have h2 : readBack Defects.none.newestFirstRead s cand.node.id = some old := hold
+      simp only [h2]
       rw [hroom, hold] at gm
       simp only [Bool.and_eq_true, List.all_eq_true, Bool.or_eq_true, List.isEmpty_iff] at gm
       rw [prepareWithHistory_congr (by simpa using gm.1)]
